@@ -425,9 +425,9 @@ PROPS = {
         'assumptions': ['saturation as a property of the action list (pollEmpty / pollClosed never occur)'],
     },
     'C06': {
-        'lean_targets': ['Cqos.Props.C06', 'Cqos.Props.C16', 'Cqos.Facts.GluePrioV2', 'Cqos.Props.C06d', 'Cqos.Props.C06i', 'Cqos.Props.C06e', 'Cqos.Props.C06f', 'Cqos.Props.C06s'],
+        'lean_targets': ['Cqos.Props.C06', 'Cqos.Props.C16', 'Cqos.Facts.GluePrioV2', 'Cqos.Props.C06d', 'Cqos.Props.C06i', 'Cqos.Props.C06v', 'Cqos.Props.C06e', 'Cqos.Props.C06f', 'Cqos.Props.C06s'],
         'facts': True,
-        'theorems': ['Cqos.C06.c06_calc_idle', 'Cqos.C06.calc_wait_busy', 'Cqos.C06.w_step', 'Cqos.C06.c06_never_waits_idle',
+        'theorems': ['Cqos.C06.c06_idle_delivers_v1_calc', 'Cqos.C06.c06_idle_delivers_v1', 'Cqos.C06.c06_calc_idle', 'Cqos.C06.calc_wait_busy', 'Cqos.C06.w_step', 'Cqos.C06.c06_never_waits_idle',
                      'Cqos.C06.c06_head_served', 'Cqos.C06.c06_recalc_alone', 'Cqos.C06.c06_v1_zero_share_starves',
                      'Cqos.C15.c15_drain_progress', 'Cqos.C16.c16_exit_bound', 'Cqos.Facts.gluePrioV2', 'Cqos.C06.poll_enabled', 'Cqos.C06.c06_no_deadlock',
                      'Cqos.C06.skip_one', 'Cqos.C06.c06_phase1_delivers', 'Cqos.C06.v2_inputs_own_chan', 'Cqos.C06.c06_idle_delivers',
@@ -436,7 +436,7 @@ PROPS = {
                      'Cqos.C06.pacc_sstep', 'Cqos.C06.lift_run', 'Cqos.C06.c06_simple_every_item_handled'],
         'runs': [{'cmd': 'stepper', 'args': ['-family', 'single']}, {'cmd': 'stepper', 'args': ['-family', 'mixed']},
                  {'cmd': 'stepper', 'args': ['-family', 'terminate']},
-                 {'cmd': 'blackbox', 'args': ['-scenario', 'alone,dynamic']}],
+                 {'cmd': 'blackbox', 'args': ['-scenario', 'alone,dynamic,prio2']}],
         'monitor_prefix': ['C06'],
         'level': 'proof',
         'level_text': ('Lean theorems (safety-shaped progress facts, every action list): a v2 discipline never waits for a release while '
@@ -453,7 +453,7 @@ PROPS = {
                        'and of the discipline\'s own steps (scheduler + lexicographic measure: queued items, occupied handlers, position in the round); '
                        'the same for an item at ANY position of the queue (c06_every_item, by induction on the items ahead, using the C02 history invariant); '
                        'for the simplified v2 discipline, where the handlers are part of the system, every waiting item gets Handle called for it by a '
-                       'continuation of own, take and finish steps only (c06_simple_every_item_handled). The '
+                       'continuation of own, take and finish steps only (c06_simple_every_item_handled). v1: the idle clause after ANY run including AddInput/RemoveInput, under the hypotheses v2 gets from its constructor (shares add up to H, the priority concerned has a share, its channel is its own): c06_idle_delivers_v1; the angelic liveness theorems are not ported to v1. The '
                        'stepper reports blocked-with-nothing-in-flight and single-active-priority under-occupation exactly (no timing)'),
         'level_note': ('partial: c06_deliverable / c06_idle_delivers show that delivery stays reachable from every reachable state by releases and the '
                        'discipline\'s own steps alone; that these steps are actually taken needs fairness of the Go scheduler and handlers that '
